@@ -101,12 +101,12 @@ ENGINES += [{"name": "documents", "path": "spec/GraphIso.tla spec/TraceDocs.tla 
 _TT = "TLA+ laws over abstract term records (TraceTerms.tla / TraceResults.tla) + TLC validation of every observation recorded from rdflib (one event per law instance), known findings as witness classes"
 CHECKS.update({
     "C07": {"engine": "terms", "technique": _TT, "note": _NOTE_COMMON + " The abstract identity of a term (kind, lexical form, datatype, lower-cased language) is computed by the spec from the constructor arguments, not read back from rdflib.",
-            "level": ("All ordered pairs of a 110-term pool (IRIs, blank nodes, variables, plain / language / typed literals incl. non-canonical, ill-typed, NaN, unknown datatypes, quoted-looking strings) and all triples of a smaller pool are compared with ==, !=, hash, "
-                      "<, >, <=, >= and sorted(); each term goes through pickle (3 protocols), copy, deepcopy, n3() re-read by the Turtle, N3, SPARQL and TriG parsers and URIRef/BNode/Variable/Literal re-construction; TLC validates equality-iff-same-identity, hash agreement, "
-                      "symmetry / negation, strict total order (irreflexive, asymmetric, transitive, total on distinct terms) and identity preservation of every route.")},
-    "C16": {"engine": "terms", "technique": _TT, "note": _NOTE_COMMON + " Documents written by third parties are covered by a randomised writer per format (attribute order, whitespace, escapes, optional elements), not by a grammar-exhaustive enumeration.",
-            "level": ("Result tables (0-3 variables, 0-4 rows, unbound cells, rows entirely unbound, duplicate rows, every term class of the 20 string classes, ASK true / false) are written by rdflib and by an independent randomised writer as JSON, XML, CSV and TSV, "
-                      "read back and compared; TLC validates variable list, row multiset and order, term identity per cell (CSV judged by its lossy mapping), unbound != empty string, and boolean results.")},
+            "level": ("All ordered pairs (a third of them per seed in quick) of a ~120-term pool (IRIs, blank nodes, variables, plain / language / typed literals incl. non-canonical, ill-typed, NaN, unknown datatypes, character-class strings) are compared with ==, !=, hash, "
+                      "set / dict collapse, < and >; sampled triples for transitivity; sorted() of random sublists twice and shuffled; each term goes through pickle protocols 0-5, copy, deepcopy, from_n3, a Turtle document and a SPARQL VALUES clause; TLC validates equality-iff-same-identity, "
+                      "hash agreement, symmetry / negation, strict order laws on constrained pairs, sort reproducibility and identity preservation of every route.")},
+    "C16": {"engine": "terms", "technique": _TT, "note": _NOTE_COMMON + " Third-party documents are covered for TSV only (randomised writer); JSON / XML are read back from the writers of rdflib.",
+            "level": ("Result tables (0-3 variables, 0-4 rows, unbound cells, rows entirely unbound, never-bound variables, duplicate rows, cells over every term kind and 13 character classes, ASK true / false) are written by rdflib as JSON and XML and read back, rendered as CSV, "
+                      "and read from TSV documents produced by an independent randomised writer; TLC validates variable list, row sequence, term identity per cell up to one blank-node bijection (CSV judged by its lossy mapping), unbound != empty string, and boolean results.")},
 })
 ENGINES += [{"name": "terms", "path": "spec/TraceTerms.tla spec/TraceResults.tla harness/rvf/terms_replay.py harness/rvf/results_replay.py", "serves_properties": ["C07", "C16"], "kind_free_text": "term identity laws and result-table equality in TLA+; TLC validates rdflib observations"}]
 NOT_BUILT: dict = {}
